@@ -502,4 +502,50 @@ Section Refinement.
   (* installation keeps the key material: a decoder that opens a document still fits after install *)
   Lemma decoder_for_install dc fk m ms enc meta : decoder_for dc fk m ms -> decoder_for (install dc enc meta) fk m ms.
   Proof. unfold decoder_for, key_fits, install. cbn [k_method k_smethod k_size k_key]. tauto. Qed.
+  (* ------------------------------------------------------------ from opening to reading *)
+  (* which crypt filter methods can read a file key of n bytes *)
+  Definition meth_fits (n : N) (m : method) : Prop :=
+    match m with MNone => True | MV2 => 1 <= n <= 16 | MAESV2 => n = 16 | MAESV3 => n = 32 end.
+
+  (** a decoder that "opens with" the n-byte file key fits it for both of its methods — the premise of the plaintext theorems
+      (for a 32-byte key the decoder must hold exactly the key: AES-256 reads all of it) *)
+  Lemma opens_decoder_for r n fk m ms em : opens_with r n fk m ms em -> lenN fk = n ->
+    meth_fits n m -> meth_fits n ms -> (n = 32 -> exists dc, r = Ok dc /\ k_key dc = fk) ->
+    exists dc, r = Ok dc /\ decoder_for dc fk m ms /\ k_em dc = em.
+  Proof.
+    intros (dc & Hr & Hs & Hk & Hm & Hms & _ & _ & Hem) Hn Fm Fms H32.
+    exists dc. split; [exact Hr|]. split; [|exact Hem].
+    assert (Hfit : forall x, meth_fits n x -> key_fits dc fk x).
+    { intros x Hx. destruct x; cbn [meth_fits key_fits] in *.
+      - exact I.
+      - rewrite Hn. split; [lia|split; [exact Hs|exact Hk]].
+      - rewrite <- Hx, <- Hn. split; [reflexivity|]. rewrite Hn. split; [exact Hs|exact Hk].
+      - split; [lia|]. destruct (H32 Hx) as (dc' & Hr' & Hk'). rewrite Hr in Hr'. inversion Hr'; subst dc'. exact Hk'. }
+    repeat split; [exact Hm|exact Hms|apply Hfit; exact Fm|apply Hfit; exact Fms].
+  Qed.
+
+  (** revisions 2-4, end to end: a dictionary written by Algorithms 3-5 opens with the user password and then every stream
+      (under /StmF's method) and every string (under /StrF's method) a conforming writer stored reads back as its plaintext *)
+  Theorem open_user_rc4_reads : forall fuel d id0 upw R n m ms tail, std_rc4_dict d R n m ms ->
+    meth_fits n m -> meth_fits n ms ->
+    let fk := alg2 MD5 R n upw (d_o d) (d_p d) id0 (d_em d) in
+    d_u d = u_entry R fk id0 tail ->
+    exists dc, FP fuel d id0 upw = Ok dc /\
+      forall enc meta num gen iv data, lenN iv = 16 ->
+        let dc' := install dc enc meta in
+        decrypt md5 aes_dec dc' num gen (protect_bytes MD5 AESE m fk enc meta (negb (k_em dc)) num gen iv data) = Ok data /\
+        ctx_decrypt md5 aes_dec (Some dc') num gen (protect_bytes MD5 AESE ms fk enc meta (negb (k_em dc)) num gen iv data) = Ok data.
+  Proof.
+    intros fuel d id0 upw R n m ms tail Hd Fm Fms fk HU.
+    pose proof (open_user_rc4 fuel d id0 upw R n m ms tail Hd HU) as Ho. fold fk in Ho.
+    destruct Hd as (_ & _ & _ & Hn).
+    assert (Lfk : lenN fk = n).
+    { unfold fk. rewrite alg2_take. apply lenN_take. rewrite alg2_full_len. lia. }
+    destruct (opens_decoder_for _ _ _ _ _ _ Ho Lfk Fm Fms) as (dc & Hr & Hfor & _); [intros ->; lia|].
+    exists dc. split; [exact Hr|]. intros enc meta num gen iv data Hiv dc'.
+    pose proof (decoder_for_install dc fk m ms enc meta Hfor) as Hfor'. fold dc' in Hfor'.
+    split.
+    - exact (plaintext dc' fk m ms num gen iv data Hfor' Hiv).
+    - exact (plaintext_string dc' fk m ms num gen iv data Hfor' Hiv).
+  Qed.
 End Refinement.
